@@ -6,13 +6,14 @@ MANIFEST = dict(
          "knots and abscissa, 2..4 pieces): an abscissa strictly inside piece j is evaluated with the coefficients of piece j, at any scale of x; "
          "coefficient table layout (one row per interval, left knot, ordinate = the spline passes through the knots) and all variable-length-"
          "array indices in bounds for 3..5 points; the trapezoid area (curve_area without interpolation) equals the exact integral of the polyline and is additive over every split point, on exact "
-         "instances (integer abscissae/ordinates 0..3, 3..4 points: independent of the evaluation order).",
-    note="Bounded number of pieces/points. C2 continuity, natural end conditions, exact reproduction of straight lines, the trapezoid area on general data and the "
+         "instances (integer abscissae/ordinates 0..3, 3..4 points: independent of the evaluation order); the natural spline of three collinear points with knot spacings 1 or 2 is the line itself "
+         "(b = slope, c = d = 0, evaluation at multiples of 1/2 exact).",
+    note="Bounded number of pieces/points. C2 continuity, natural end conditions, reproduction of straight lines beyond three points / on general data, the trapezoid area on general data and the "
          "simplex minimiser's convergence are numerical and not decided; the simplex's reported-value / no-worse-than-start clauses are decided for dimension 1 and <= 1 iteration (2 in the thorough tier) with an arbitrary deterministic objective.",
     technique="CBMC on the real spline bodies with a precondition-selected coefficient instance (piece j = constant j); bounded pieces")
 
-META = dict(decided="trapezoid area == polyline integral and additivity (exact instances); piece lookup independent of knot spacing/scale; table layout; index safety of the tridiagonal solve arrays; simplex: reported value = f(returned point), never worse than the best initial vertex (dimension 1)",
-            not_decided="C2 continuity, end conditions, line reproduction, unit independence of coefficients, trapezoid area on general (not exactly representable) data, simplex convergence",
+META = dict(decided="trapezoid area == polyline integral and additivity, straight-line reproduction (exact instances); piece lookup independent of knot spacing/scale; table layout; index safety of the tridiagonal solve arrays; simplex: reported value = f(returned point), never worse than the best initial vertex (dimension 1)",
+            not_decided="C2 continuity, end conditions, line reproduction beyond the exact instances, unit independence of coefficients, trapezoid area on general (not exactly representable) data, simplex convergence",
             trusted_base=[], assumptions=["knots within +-1e4, spacing >= 1e-4 (the property's range)"])
 
 S = ["interpolate.c", "matrix.c", "vector.c", "memwrapper.c", "numeric.c"]
@@ -29,6 +30,10 @@ def jobs(tier):
         J.append(Job("table_layout@n=%d" % n, "C19/spline.c", entry="h_table_layout", srcs=S, kind="bounded", defines={"VC_NPTS": n}, unwind=max(n, 5) + 3, cbmc_flags=["--slice-formula"],
                      functions=["cubic_spline_interpolation"], timeout=900, bound="%d points, abscissae/ordinates symbolic" % n,
                      clause="coefficient table layout; spline passes through the knots; VLA indices in bounds"))
+    for n in (3,):   # 4 points (two interior knots) did not finish in 900 s
+        J.append(Job("line_reproduction@n=%d" % n, "C19/spline.c", entry="h_line_reproduction", srcs=S, kind="bounded", defines={"VC_NPTS": n, "VC_LINE": None}, unwind=max(n, 5) + 3,
+                     functions=["cubic_spline_interpolation", "cubic_spline_predict"], timeout=900, bound="%d collinear points, knot spacings 1 or 2, integer slope -2..2 / intercept 0..1 (IEEE, exact instances)" % n,
+                     clause="the natural spline of collinear points is the line: b = slope, c = d = 0 on every piece, evaluation at multiples of 1/2 equals the line"))
     for n in ((3, 4) if tier == "quick" else (2, 3, 4)):
         J.append(Job("trapezoid@n=%d" % n, "C19/trapezoid.c", entry="h_trapezoid", srcs=["matrix.c", "vector.c", "memwrapper.c", "numeric.c", "interpolate.c"], kind="bounded", defines={"VC_N": n},
                      unwind=n + 3, functions=["curve_area"], timeout=900, bound="%d points, integer abscissae/ordinates in 0..3 (IEEE, exact instances)" % n,
